@@ -99,6 +99,8 @@ def check(ctx, rep):
     rep.rule("R17l", "the content, condition, attributes and omit-tag commands treat the value of their expression as TAL prescribes - nothing, "
              "default, and real values including 0, the empty string and empty sequences: each handler is evaluated by the walker on "
              "representative values and the interpreter's registers are compared", floor=3)
+    rep.rule("R17n", "the slot fillers of a metal:use-macro are gone once its expansion has returned: the register popProgram() restores is cleared "
+             "right after the restore", floor=1)
     rep.rule("R17m", "tal:define: each statement is local unless it says global, statements take effect in source order (a later statement sees "
              "the variables of the earlier ones), one local scope per element: the compiler's parser and the interpreter's handler are "
              "evaluated on representative statements", floor=2)
@@ -583,6 +585,7 @@ def check(ctx, rep):
 
     # ------------------------------------------------------------------ R17m
     define_evaluation_obligations(ctx, rep, "R17m", mod)
+    slot_parameter_obligations(ctx, rep, "R17n", mod)
 
     # ------------------------------------------------------------------ R17i
     ctxcls = tales.classes.get("Context")
@@ -807,6 +810,70 @@ def tales_evaluation_obligations(ctx, rep, rule, tales):
             "; ".join(problems[:4]) if problems else ("" if decided_enough else f"the walker could follow only {n} expressions (not: {undecided[:3]})"),
             key=f"{rule}|evaluate", nontrivial=decided_enough)
     rep.extra["tales_undecided"] = undecided
+
+
+
+def slot_parameter_obligations(ctx, rep, rule, mod):
+    """The slot fillers a metal:use-macro hands over belong to that one expansion: when the nested program has run and the caller's
+    state is restored, the fillers are gone.  popProgram() restores whatever pushProgram() saved - the filler map included, if it is
+    one of the saved registers - so the reset has to come after the restore (or the map must not be among the saved registers and be
+    reset where the nested program starts)."""
+    interp = mod.classes.get("TemplateInterpreter")
+    pp = interp.methods.get("popProgram") if interp else None
+    um = interp.methods.get("cmdUseMacro") if interp else None
+    if pp is None or um is None:
+        rep.fail(rule, "TemplateInterpreter.popProgram / cmdUseMacro", detail="interpreter methods not found")
+        return
+    reg = None
+    for n in ast.walk(um.node):
+        if isinstance(n, ast.Assign) and not isinstance(n.value, (ast.Dict, ast.Constant)):
+            for t in n.targets:
+                if isinstance(t, ast.Attribute) and dotted(t.value) == "self" and "slot" in t.attr.lower():
+                    reg = t.attr
+    if reg is None:
+        rep.fail(rule, "cmdUseMacro", ctx.where(um), "the register that receives the slot fillers was not found")
+        return
+    restored = any(isinstance(x, ast.Attribute) and dotted(x.value) == "self" and x.attr == reg and isinstance(x.ctx, ast.Store) for x in ast.walk(pp.node))
+    push = interp.methods.get("pushProgram")
+    if not restored and push is not None:
+        try:
+            restored = reg in saved_names(ctx.prog, interp, push)  # saved as a record / through a helper and restored by reflection
+        except Exception:
+            pass
+    problems, n = [], 0
+
+    def is_reset(st):
+        return isinstance(st, ast.Assign) and any(isinstance(t, ast.Attribute) and dotted(t.value) == "self" and t.attr == reg for t in st.targets) \
+            and isinstance(st.value, (ast.Dict, ast.Call)) and not (isinstance(st.value, ast.Dict) and st.value.keys)
+
+    if restored:
+        from ..structure import parents
+
+        for m in interp.methods.values():
+            pm = None
+            for c in ast.walk(m.node):
+                if isinstance(c, ast.Call) and isinstance(c.func, ast.Attribute) and c.func.attr == "popProgram" and dotted(c.func.value) == "self":
+                    n += 1
+                    pm = pm or parents(m.node)
+                    stmt = c
+                    while stmt is not None and not isinstance(stmt, ast.stmt):
+                        stmt = pm.get(stmt)
+                    holder = pm.get(stmt)
+                    after = []
+                    for fld in ("body", "orelse", "finalbody"):
+                        blk = getattr(holder, fld, None)
+                        if isinstance(blk, list) and stmt in blk:
+                            after = blk[blk.index(stmt) + 1:]
+                    if not any(is_reset(a) for a in after):
+                        problems.append(f"{m.qualname} (line {c.lineno}): popProgram() restores `self.{reg}` - the fillers of the use-macro that has just been "
+                                        "expanded - and nothing clears it afterwards: the next template included from this program fills its slots with them")
+    else:
+        cs = interp.methods.get("cleanState")
+        n += 1
+        if cs is None or not any(is_reset(x) for x in ast.walk(cs.node) if isinstance(x, ast.stmt)):
+            problems.append(f"`self.{reg}` is neither saved around a nested program nor cleared when one starts")
+    rep.add(rule, f"TemplateInterpreter: slot fillers (`self.{reg}`) are consumed by the expansion they were given to [{n} restore sites]", not problems,
+            ctx.where(pp), "; ".join(problems[:2]), key=f"{rule}|slots")
 
 
 # ---------------------------------------------------------------------------------------------- R17l
